@@ -501,19 +501,29 @@ def onData (s : St) (fid : FaceId) (d : Data) : St × List Send :=
 
 /-! ## timers -/
 
+/-- one expired entry: finalizeInterest (out-record nonces become dead) and RemoveInterest -/
+def expireOne (s : St) (e : Entry) : St :=
+  let s := dnlInsertAll s (e.outRecs.map fun r => (r.name, r.nonce))
+  { s with pit := removeEntry s.pit e.token }
+
+def isDue (now : Time) (e : Entry) : Bool :=
+  match e.sched with
+  | some t => t ≤ now
+  | none => false
+
+def pitExpire (s : St) : St := (s.pit.filter (isDue s.now)).foldl expireOne s
+
+def nextUpdDelay (now : Time) (pit : List Entry) : Nat :=
+  match pit.filterMap (·.sched) with
+  | [] => tickInterval
+  | t :: ts =>
+    let m := ts.foldl min t
+    if m > now then min (m - now) tickInterval else tickInterval
+
 /-- PitCsTree.Update at the instant `s.now`: expire, finalize, re-arm -/
 def pitUpdate (s : St) : St :=
-  let due := s.pit.filter fun e => match e.sched with | some t => t ≤ s.now | none => false
-  let s1 := due.foldl (fun s e =>
-      let s := dnlInsertAll s (e.outRecs.map fun r => (r.name, r.nonce))
-      { s with pit := removeEntry s.pit e.token }) s
-  let rest := s1.pit.filterMap (·.sched)
-  let d := match rest with
-    | [] => tickInterval
-    | t :: ts =>
-      let m := ts.foldl min t
-      if m > s.now then min (m - s.now) tickInterval else tickInterval
-  { s1 with nextUpd := s.now + d }
+  let s1 := pitExpire s
+  { s1 with nextUpd := s.now + nextUpdDelay s.now s1.pit }
 
 def dnlTick (s : St) : St := { s with dnl := dnlReap 100 s.now s.dnl, nextDnl := s.nextDnl + tickInterval }
 
